@@ -8,8 +8,8 @@
 //! * `c14_new`, `c14_read_blocking`, `c14_write_blocking`, `c14_flush_gating`, `c14_device_id`,
 //!   `c14_nb_two_read_first`, `c14_nb_two_write_first`, `c14_read_blocking_indirect`: BOUNDED stand-ins (bounds stated at each harness)
 //!   that run the real driver on the real queue against a reference device.
-//! * `c14_blocking_while_nb_outstanding`: demonstrates a suspected defect (expected to FAIL; not part of the
-//!   quick/thorough lists - see docs/builders/blk.report.md).
+//! * `c14_blocking_while_nb_outstanding`, `c14_blocking_while_nb_leak`: demonstrate a suspected defect (expected
+//!   to FAIL; not part of the quick/thorough lists - see docs/builders/blk.report.md, D-blk-1).
 //!
 //! The reference device sees only what a device sees: the addresses handed to `Transport::queue_set`
 //! (= the DMA allocations), the rings and descriptor table in the VirtIO 1.x split-queue format
@@ -556,9 +556,7 @@ fn c14_nb_two_write_first() { nb_two(true); }
 /// buffers at the same time": its pop hits the other request's completion, the blocking read returns
 /// Err(WrongToken) although the device never reported an error for it - and its chain, which points at the
 /// header and status byte in the returned function's stack frame, is still available to the device.
-#[kani::proof]
-#[kani::unwind(40)]
-fn c14_blocking_while_nb_outstanding() {
+fn blocking_while_nb(check_leak: bool) {
     let mut blk = mk_blk(0);
     let mut req1 = BlkReq::default();
     let mut resp1 = BlkResp::default();
@@ -568,9 +566,18 @@ fn c14_blocking_while_nb_outstanding() {
     let shared_before = sh_n();
     let mut buf = [0u8; 512];
     let r = blk.read_blocks(9, &mut buf);
-    // C14: "the device's status maps to success or the corresponding error": the device has not even
-    // looked at this request, yet an error is returned ...
-    assert!(r != Err(Error::WrongToken), "C14: blocking read returned WrongToken: result is not the image of its own request's status");
-    // ... and the request (3 buffers, two of them in a dead stack frame) is still with the device
-    assert!(sh_n() - shared_before == unsh_n(), "C14: blocking read returned while its request is still outstanding (buffers still shared with the device)");
+    if check_leak {
+        // the request (3 buffers, two of them in a dead stack frame) is still with the device
+        assert!(sh_n() - shared_before == unsh_n(), "C14: blocking read returned while its request is still outstanding (buffers still shared with the device)");
+    } else {
+        // C14: "the device's status maps to success or the corresponding error": the device has not even
+        // looked at this request, yet an error is returned
+        assert!(r != Err(Error::WrongToken), "C14: blocking read returned WrongToken: result is not the image of its own request's status");
+    }
 }
+#[kani::proof]
+#[kani::unwind(40)]
+fn c14_blocking_while_nb_outstanding() { blocking_while_nb(false); }
+#[kani::proof]
+#[kani::unwind(40)]
+fn c14_blocking_while_nb_leak() { blocking_while_nb(true); }
